@@ -108,6 +108,18 @@ func (r *run) execBlock(fr *frame, b *ssa.BasicBlock, st *State, reach string, i
 			r.unsupported("concurrency instruction %T", x)
 		case *ssa.DebugRef:
 		case *ssa.If:
+			// counting loop `for c := e0; c < X; c++` whose bound X has the same value at
+			// every evaluation of the header: c never exceeds max(e0, X)
+			if li := fr.loops[b]; li != nil && li.cntCell != nil && li.cntEntry != "" {
+				if cmp, ok := x.Cond.(*ssa.BinOp); ok && loopInvariantValue(li, cmp.Y, 0) {
+					if cv, ok := st.cells[li.cntCell]; ok && cv.Sort == "Int" {
+						bound := r.val(fr, st, cmp.Y)
+						if bound.Sort == "Int" {
+							r.assume(reach, fmt.Sprintf("(or (<= %s %s) (<= %s %s))", cv.Term, bound.Term, cv.Term, li.cntEntry))
+						}
+					}
+				}
+			}
 			c := r.val(fr, st, x.Cond).Term
 			r.pushEdge(fr, b, b.Succs[0], and(reach, c), st.clone(), ins)
 			r.pushEdge(fr, b, b.Succs[1], and(reach, not(c)), st, ins)
@@ -824,4 +836,53 @@ func (r *run) execNext(fr *frame, st *State, x *ssa.Next, reach string) Val {
 	r.assume(reach, fmt.Sprintf("(=> (not %s) (forall ((k!n %s)) (! (=> (and (not (= %s 0)) (select (select %s %s) k!n)) (select %s k!n)) :pattern ((select %s k!n)))))", okc, ks, m, hd, m, visited, visited))
 	st.iters[rg] = fmt.Sprintf("(ite %s (store %s %s true) %s)", okc, visited, k.Term, visited)
 	return Val{Sort: "TUPLE", Tup: []Val{{Term: okc, Sort: "Bool", Type: types.Typ[types.Bool]}, k, v}, Type: x.Type()}
+}
+
+// loopInvariantValue: v denotes the same value at every evaluation inside the loop: a
+// constant, a value computed outside the loop, the contents of a local cell that the loop
+// never stores to, or len/cap of such a value.
+func loopInvariantValue(li *loopInfo, v ssa.Value, depth int) bool {
+	if depth > 3 {
+		return false
+	}
+	switch x := v.(type) {
+	case *ssa.Const:
+		return true
+	case *ssa.Parameter:
+		return true
+	case *ssa.UnOp:
+		if x.Op != token.MUL {
+			return false
+		}
+		cell, ok := x.X.(*ssa.Alloc)
+		if !ok || cell.Heap {
+			return false
+		}
+		for _, ref := range *cell.Referrers() {
+			switch y := ref.(type) {
+			case *ssa.Store:
+				if y.Addr != cell {
+					return false
+				}
+				if li.body[y.Block()] {
+					return false
+				}
+			case *ssa.UnOp, *ssa.DebugRef:
+			default:
+				return false
+			}
+		}
+		return true
+	case *ssa.Call:
+		if b, ok := x.Call.Value.(*ssa.Builtin); ok && (b.Name() == "len" || b.Name() == "cap") && len(x.Call.Args) == 1 {
+			return loopInvariantValue(li, x.Call.Args[0], depth+1)
+		}
+		return false
+	case *ssa.Convert:
+		return loopInvariantValue(li, x.X, depth+1)
+	}
+	if in, ok := v.(ssa.Instruction); ok && in.Block() != nil && !li.body[in.Block()] {
+		return true
+	}
+	return false
 }
